@@ -20,7 +20,7 @@ CHECKS = {
   'C02': ('exploration', 'schedule-generating property-based testing: deterministic line-granular scheduler + linearizability oracle; bounded-preemption enumeration in the thorough tier',
           'sched', 'DESIGN.md section 4 C02',
           'Generated store/drain/query histories for a receiving and a writer thread under generated (and, thorough, all <=2-preemption) line-level schedules and all six strategies; exact linearizability search against the sequential map-of-maps specification with a final full read, size invariant at every lock-free scheduling point.',
-          'Granularity is one source line (opcode-level races are out of reach); queries run on the receiving thread as in the daemon.'),
+          'Generated schedules preempt between source lines; the prefilled single-preemption enumeration also preempts between bytecode instructions inside cache.py. Queries run on the receiving thread as in the daemon.'),
   'C10': ('exploration', 'schedule-generating property-based testing with a bounded sequential specification (linearizability incl. overflow signals) and per-scheduling-point invariants',
           'sched', 'DESIGN.md section 4 C10',
           'As C02 with MAX_CACHE_SIZE 1..6,20 x flow control; bound and no-empty-entry invariants at every scheduling point; refusals must signal exactly once and change nothing; duplicates accepted when full; derived hard limit produced by carbon\'s own postOptions and compared with the documented 100%/105%. One genuine defect found and fixed.',
